@@ -78,7 +78,7 @@ fn main() {
     let mut per = Vec::new();
     let mut all_complete = true;
 
-    let sc0 = s0(run.tier.pick(5, 7));
+    let sc0 = s0(run.tier.pick(5, 8));
     let e0 = explore(&run, &sc0, &mut sink);
     states += e0.states;
     transitions += e0.transitions;
@@ -89,8 +89,17 @@ fn main() {
     let mut singles = 0;
     for first in s1_catalogue(thorough) {
         let sc = s1(first);
-        if sc.payloads[0].2 {
-            singles += 1;
+        // vacuity guard by the reference walker (independent of the implementation's verdicts):
+        // the payload is one well-formed message and no proper prefix is
+        {
+            use vcommon::reference::wire::ref_record_with_header;
+            use vcommon::v::Ref;
+            let (ty, p) = (sc.payloads[0].0, &sc.payloads[0].1);
+            let whole = matches!(ref_record_with_header(ty, p), Ref::Must(vcommon::v::V::L(ref m), n) if n == p.len() && m.len() == 1);
+            let prefixes = (0..p.len()).all(|n| !matches!(ref_record_with_header(ty, &p[..n]), Ref::Must(..)));
+            if whole && prefixes {
+                singles += 1;
+            }
         }
         let e = explore(&run, &sc, &mut sink);
         states += e.states;
@@ -98,6 +107,39 @@ fn main() {
         maxdepth = maxdepth.max(e.depth);
         all_complete &= e.complete;
         per.push(json!({"scenario":"S1 all splits","payload_type":sc.payloads[0].0,"payload":hexshort(&sc.payloads[0].1),"single_message":sc.payloads[0].2,"states":e.states,"transitions":e.transitions,"depth":e.depth,"outcomes":e.outcomes,"fixpoint_reached":e.complete}));
+    }
+
+    // thorough tier: the same transition functions explored by an independent engine (stateright BFS);
+    // the numbers of unique states must coincide, else one of the explorers truncated or over-merged
+    let mut cross: Vec<serde_json::Value> = Vec::new();
+    if thorough {
+        let vsr = "/verif/target/release/vsr";
+        let run_vsr = |args: &[String]| -> (usize, usize) {
+            let out = std::process::Command::new(vsr).args(args).output().unwrap_or_else(|e| machinery_failure("C07", &format!("cannot run {}: {}", vsr, e)));
+            let txt = String::from_utf8_lossy(&out.stdout).to_string();
+            let get = |k: &str| txt.split_whitespace().find_map(|t| t.strip_prefix(k).and_then(|v| v.parse::<usize>().ok()));
+            match (get("states="), get("violations=")) {
+                (Some(a), Some(b)) => (a, b),
+                _ => machinery_failure("C07", &format!("unexpected output of the cross explorer: {:?} {:?}", txt, String::from_utf8_lossy(&out.stderr))),
+            }
+        };
+        let cd = 6usize;
+        let mut tmp = Sink::new();
+        let primary = explore(&run, &s0(cd), &mut tmp);
+        let (st, vi) = run_vsr(&["c07-s0".to_string(), cd.to_string()]);
+        cross.push(json!({"scenario":"S0","depth":cd,"primary_states":primary.states,"stateright_states":st,"stateright_violating_states":vi}));
+        if tmp.viol.is_empty() && vi == 0 && st != primary.states {
+            machinery_failure(run.prop, &format!("explorers disagree on S0 depth {}: primary {} states, stateright {}", cd, primary.states, st));
+        }
+        for (i, first) in s1_catalogue(true).into_iter().enumerate() {
+            let mut tmp = Sink::new();
+            let primary = explore(&run, &s1(first), &mut tmp);
+            let (st, vi) = run_vsr(&["c07-s1".to_string(), i.to_string(), "thorough".to_string()]);
+            cross.push(json!({"scenario":"S1","payload_index":i,"primary_states":primary.states,"stateright_states":st,"stateright_violating_states":vi}));
+            if tmp.viol.is_empty() && vi == 0 && st != primary.states {
+                machinery_failure(run.prop, &format!("explorers disagree on S1 payload {}: primary {} states, stateright {}", i, primary.states, st));
+            }
+        }
     }
 
     let (h1, st1) = s2(&mut sink, 16640, thorough);
@@ -114,6 +156,9 @@ fn main() {
     cov.insert("traces_validated_against_impl".into(), json!(transitions + st1 + st2));
     cov.insert("max_depth".into(), json!(maxdepth));
     cov.insert("scenarios".into(), json!(per));
+    if !cross.is_empty() {
+        cov.insert("cross_check_stateright".into(), json!(cross));
+    }
     cov.insert("exhaustive".into(), json!(all_complete));
     cov.insert("rule".into(), json!(
         "states are canonical (buffer bytes, current type, reference accumulator, reference type, scenario cursor); every transition executes the real parse_record / parse_record_nocopy / reset on a parser rebuilt by replaying the witness history, and is compared with the reference accumulate-then-parse step (result value incl. slice provenance, defrag_in_progress, buffer, state-unchanged-on-refusal, size bound). S0 is depth-bounded (bound reported); S1 runs to fixpoint; S2 is a set of deterministic 10 MiB histories"));
